@@ -206,6 +206,19 @@ def none_after(ck, o, body, a_events, pred, what, fn_key=None, crate=None):
     return True
 
 
+def _tuple_places(body, tracked):
+    """(local, path) of tuple fields that hold one of the tracked bools: `match (closed, prev) { (true, _) => ..`."""
+    out = {}
+    for bb, j, s in body.all_assigns():
+        rv = s["rv"]
+        if rv["rk"] == "agg" and rv.get("ak") == "tuple" and not s["pl"]["p"]:
+            for i, op in enumerate(rv["ops"]):
+                l = flow.operand_local(op)
+                if l is not None and op.get("k") != "const" and not op["pl"]["p"] and l in tracked:
+                    out[(s["pl"]["l"], ("f:%d:" % i,))] = tracked[l]
+    return out
+
+
 def bool_switch_edges(body, event, polarity):
     """Edges taken when the bool returned by `event` (a call whose dest is switched on,
     possibly through Not/copies) equals `polarity`."""
@@ -229,13 +242,15 @@ def bool_switch_edges(body, event, polarity):
                 if l in tracked and d not in tracked:
                     tracked[d] = not tracked[l]
                     changed = True
+    places = _tuple_places(body, tracked)
     for bb in body.live:
         t = body.blocks[bb]["term"]
         if t["tk"] != "switch":
             continue
         l = flow.operand_local(t["discr"])
-        if l in tracked and not t["discr"]["pl"]["p"]:
-            neg = tracked[l]
+        pk = (l, tuple(t["discr"]["pl"]["p"])) if l is not None else None
+        if (l in tracked and not t["discr"]["pl"]["p"]) or pk in places:
+            neg = tracked[l] if not t["discr"]["pl"]["p"] else places[pk]
             want = polarity != neg   # value the switched local must have
             arms = {int(a[0]): a[1] for a in t["arms"]}
             if want:
@@ -406,13 +421,15 @@ def local_bool_edges(body, start_locals, polarity):
                 if l in tracked and d not in tracked:
                     tracked[d] = not tracked[l]
                     changed = True
+    places = _tuple_places(body, tracked)
     for bb in body.live:
         t = body.blocks[bb]["term"]
         if t["tk"] != "switch":
             continue
         l = flow.operand_local(t["discr"])
-        if l in tracked and not t["discr"]["pl"]["p"]:
-            want = polarity != tracked[l]
+        pk = (l, tuple(t["discr"]["pl"]["p"])) if l is not None else None
+        if (l in tracked and not t["discr"]["pl"]["p"]) or pk in places:
+            want = polarity != (tracked[l] if not t["discr"]["pl"]["p"] else places[pk])
             arms = {int(a[0]): a[1] for a in t["arms"]}
             if want:
                 if 0 in arms:
@@ -469,15 +486,16 @@ def _bool_defs(body, local, neg=False, seen=None):
     return out
 
 
-def reachable_const(body, start, limit=20000):
+def reachable_const(body, start, limit=20000, env0=None, removed_nodes=()):
     """Blocks reachable from `start` when bool locals that were just assigned a constant are remembered: after
     `_2 = const true` a `switch(_2)` only takes its true arm (`a || b || c` stored in a temporary and tested later)."""
     seen = set()
     out = set()
-    work = [(start, frozenset())]
+    removed_nodes = set(removed_nodes)
+    work = [(start, frozenset((env0 or {}).items()))]
     while work and len(seen) < limit:
         bb, env = work.pop()
-        if (bb, env) in seen:
+        if (bb, env) in seen or bb in removed_nodes:
             continue
         seen.add((bb, env))
         out.add(bb)
@@ -490,6 +508,14 @@ def reachable_const(body, start, limit=20000):
                 continue
             d = st["pl"]["l"]
             rv = st["rv"]
+            for k_ in [k_ for k_ in e if isinstance(k_, tuple) and k_[0] == d]:
+                e.pop(k_, None)
+            if rv["rk"] == "agg" and rv.get("ak") == "tuple":
+                e.pop(d, None)
+                for i_, op in enumerate(rv["ops"]):
+                    if op.get("k") != "const" and not op["pl"]["p"] and op["pl"]["l"] in e:
+                        e[(d, ("f:%d:" % i_,))] = e[op["pl"]["l"]]
+                continue
             if rv["rk"] == "use":
                 op = rv["ops"][0]
                 if op.get("k") == "const" and "int" in op and str(op["int"]) in ("0", "1") and body.locals[d] == "bool":
@@ -506,8 +532,11 @@ def reachable_const(body, start, limit=20000):
         if t["tk"] == "call" and t.get("dest") and not t["dest"]["p"]:
             e.pop(t["dest"]["l"], None)
         succs = None
-        if t["tk"] == "switch" and t["discr"].get("k") != "const" and not t["discr"]["pl"]["p"] and t["discr"]["pl"]["l"] in e:
-            v = e[t["discr"]["pl"]["l"]]
+        dk_ = None
+        if t["tk"] == "switch" and t["discr"].get("k") != "const":
+            dk_ = t["discr"]["pl"]["l"] if not t["discr"]["pl"]["p"] else (t["discr"]["pl"]["l"], tuple(t["discr"]["pl"]["p"]))
+        if dk_ is not None and dk_ in e:
+            v = e[dk_]
             arms = {int(a[0]): a[1] for a in t["arms"]}
             succs = [arms[v]] if v in arms else [t["otherwise"]]
         if succs is None:
@@ -536,6 +565,26 @@ def local_implies(body, local, inner, polarity, value):
                 continue
         elif kind == "call" and d[2] is not None and d[2] in inner:
             if (value != d[3]) == polarity:
+                continue
+        if not edges or not body.must_pass_edges(edges, bb):
+            return False
+    return True
+
+
+def local_implies_any(body, local, inner, extra_edges, value):
+    """Does the bool `local` having `value` imply that at least one of the tests in `inner` ({event: polarity}) had its
+    polarity, or that one of `extra_edges` was taken?  (`let occupied = !overwrite && dir.next().is_some();` - occupied
+    false implies overwrite, or an empty directory.)"""
+    edges = set(extra_edges)
+    for e, pol in inner.items():
+        edges |= bool_switch_edges(body, e, pol)
+    for d in _bool_defs(body, local):
+        bb, kind = d[0], d[1]
+        if kind == "const":
+            if d[2] != value:
+                continue
+        elif kind == "call" and d[2] is not None and d[2] in inner:
+            if (value != d[3]) == inner[d[2]]:
                 continue
         if not edges or not body.must_pass_edges(edges, bb):
             return False
